@@ -385,6 +385,8 @@ var c14Regexes = []string{
 	"(a)\\1", "(a|b)\\1", "(.)\\1", "(ab)\\1", "(a)(b)\\2\\1", "((a)b)\\1", "((a)b)\\2", "(a(b))\\2", "(?<n>a)\\k<n>", "(?<n>.)b\\k<n>", "(a+)b\\1", "(.)(.)\\2\\1", "(?:(a)|b)\\1c",
 	// adjacent variable-length groups that can divide the same text in several ways, decided by a back-reference
 	"(a+)(a*)b\\1", "(\\d+)(\\d*)-\\1", "(a*)(a+)-\\2", "(.+)(.*)-\\1", "(a|(?:ab))(c|(?:bc))\\1", "(a+?)(a*)b\\1", "(?<p>\\d+)(?<q>\\d*),\\k<p>",
+	// a bounded quantifier inside a group that is itself under a bounded quantifier
+	"(ab?)?", "(ab?)?c", "(a{1,2}b){1,2}", "(?:a?b){0,2}c", "(a??b)?", "(?:ab{0,2}){1,2}", "((a|b)?c)?",
 }
 
 func VerifC14Count() int { return len(c14Regexes) }
